@@ -18,13 +18,16 @@ typedef struct { u64 pos, len; int seekable, eof; unsigned accesses; } MFile;
 static size_t verif_fread(void *buf, size_t sz, size_t n, FILE *f)
 {
 	MFile *m = (MFile *) f;
+	/* fread(buf, sz, n): up to n ITEMS of sz bytes; whole items are counted, a trailing partial item is consumed too;
+	 * sz == 0 or n == 0 reads nothing and returns 0 */
 	u64 avail = m->len > m->pos ? m->len - m->pos : 0;
-	size_t k = n <= avail ? n : (size_t) avail;
-	(void) buf; (void) sz;
+	u64 want = (u64) sz * (u64) n;
+	u64 got = want <= avail ? want : avail;
+	(void) buf;
 	++m->accesses;
-	if (k < n) m->eof = 1;
-	m->pos += k;
-	return k;
+	if (got < want) m->eof = 1;
+	m->pos += got;
+	return sz == 0 ? 0 : (size_t) (got / sz);
 }
 static long verif_ftell(FILE *f) { MFile *m = (MFile *) f; return m->seekable ? (long) m->pos : -1L; }
 static int verif_fseek(FILE *f, long off, int whence)
@@ -61,7 +64,13 @@ void harness(void)
 	LHAInputStream sc;
 	int ra, rb, rc, oka, okb, okc;
 	u64 ata, atb, atc;
-	ASSUME(pos <= len && len < ((u64) 1 << 40) && dist <= DMAX && k >= 1 && k <= 4);
+	ASSUME(pos <= len && len < ((u64) 1 << 40) && k >= 1 && k <= 4);
+#ifndef DFIX
+	ASSUME(dist <= DMAX);
+#endif
+#ifdef DFIX
+	dist = DFIX;          /* one concrete distance per variant (the loops fold): larger distances, multiples of likely block sizes */
+#endif
 	a.pos = b.pos = c.pos = pos; a.len = b.len = c.len = len; a.eof = b.eof = c.eof = 0; a.accesses = b.accesses = c.accesses = 0;
 	a.seekable = 1; b.seekable = 0; c.seekable = 0;
 	ra = file_source_skip(&a, dist);                       /* regular file */
@@ -77,6 +86,7 @@ void harness(void)
 	CHECK(a.accesses <= 1 && b.accesses <= (dist + 31) / 32 + 2 && c.accesses <= (dist + 31) / 32 + 2, "C13: each variant returns within ceil(distance/32)+2 source accesses");
 	if (!rb && dist == DMAX) WITNESS("truncated data: read-based skip fails");
 	if (oka && dist == 33) WITNESS("two-piece skip succeeds");
+	if (oka && dist == 256) WITNESS("skip of 256 bytes succeeds");
 	WITNESS("end");
 }
 
